@@ -516,6 +516,11 @@ func (cl *cluster) apply(ev string) {
 		cl.failFiemap = true
 		cl.nFaults++
 		cl.observe("FiemapFail armed")
+	case "XferKill":
+		// the next snapshot-file transfer: the sender is killed by a signal after the receiver sized the file
+		cl.killXfer = true
+		cl.nFaults++
+		cl.observe("XferKill armed")
 	case "XferFail":
 		// the next snapshot-file transfer of the running rebuild dies half way
 		cl.failXfer = true
@@ -582,6 +587,16 @@ func (cl *cluster) apply(ev string) {
 		cl.nRestart++
 		cl.observe("Kill -> %s", cl.taskDesc())
 		cl.reopenOracle(ev, n, "its process was killed during the "+cl.task.kind)
+	case "Crash":
+		// the replica process whose rebuild failed exits (AutoConfigureReplica ends in Fatalf) and is started again
+		n := cl.task.node
+		cl.task.crashed = true
+		if rn, ok := cl.nodes[n].(*RealNode); ok {
+			rn.Crash()
+		}
+		cl.nRestart++
+		cl.observe("Crash -> %s", cl.taskDesc())
+		cl.reopenOracle(ev, n, "its process exited after the failed "+cl.task.kind)
 	case "DelSnap":
 		cl.deleteSnapshot(ev, f[1], before)
 	case "Cleaners":
